@@ -254,7 +254,7 @@ func readLogFrom(src io.Reader, n int, drw *dialect.ReadWriter) ([]*tlog.Entry, 
 
 func TestC20Logs(t *testing.T) {
 	rec := evid.New(t, "C20", "generated entry sequences (0..30 entries: v1/v2/signed frames, raw and dialect messages, times on both sides of the epoch with sub-microsecond parts, unencodable entries interleaved) written with tlog.Writer; oracles: file bytes == concatenation of BE64(floor(t,us)) ++ reference frame bytes, unencodable entries return an error and leave the file untouched, read-back equals what was written, every truncation point of the file yields exactly the complete entries before the cut and then an error, a failing io.Writer is reported; non-trivial = >=3 entries of mixed versions with a negative or sub-us timestamp, or an unencodable entry between good ones; distinct by hash of the file")
-	rec.Require("cut-in-timestamp", "cut-in-header", "cut-in-payload", "cut-in-signature", "bad-entry-between-good", "negative-time", "sub-us", "writer-fault", "writer-fault-on-a-file-like-sink", "entries-written-after-a-reported-sink-failure", "dialect", "longer-than-reader-window", "longer-than-3-reader-windows", "file-arrives-in-pieces", "unsigned-entry-with-leftover-signature-fields")
+	rec.Require("cut-in-timestamp", "cut-in-header", "cut-in-payload", "cut-in-signature", "bad-entry-between-good", "negative-time", "sub-us", "writer-fault", "writer-fault-on-a-file-like-sink", "entries-written-after-a-reported-sink-failure", "file-after-an-all-or-nothing-sink-failure-is-the-accepted-entries", "dialect", "longer-than-reader-window", "longer-than-3-reader-windows", "file-arrives-in-pieces", "unsigned-entry-with-leftover-signature-fields")
 	dpool := pool(t)
 	errBoom := errors.New("injected write error")
 	evid.Check(t, rec, evid.N(4000, 12000), func(t *rapid.T) {
@@ -464,9 +464,13 @@ func TestC20Logs(t *testing.T) {
 				t.Fatalf("BROKEN: %v", err)
 			}
 			reported := false
+			var accepted []byte // the entries whose Write returned nil
 			for i, e := range good {
 				before := fw2.buf.Len()
 				err := w2.Write(&tlog.Entry{Time: e.t, Frame: gen.ToLibEntry(e.lib)})
+				if err == nil {
+					accepted = append(accepted, e.bytes...)
+				}
 				if reported {
 					// the sink works again: every later entry is written as if nothing had happened - its own
 					// bytes, and nothing of the entry whose Write was reported as failed
@@ -493,6 +497,15 @@ func TestC20Logs(t *testing.T) {
 			}
 			if !reported {
 				t.Fatalf("injected fault at call %d of %d never surfaced", k, total)
+			}
+			if fw2.mode == 0 {
+				// the sink refused that one call altogether (took no byte of it): the file is the entries whose Write
+				// returned nil, one after the other - nothing of the refused entry in between - and reads back as such
+				if got := fw2.buf.Bytes(); !bytes.Equal(got, accepted) {
+					evid.ReplayNote("C20", "TestC20Logs", fmt.Sprintf("sink refused its call %d (0 bytes taken, error reported)\nfile     %x\naccepted %x", k, got, accepted))
+					t.Fatalf("the sink refused its call %d altogether (no byte taken; Write reported the error) and worked for every other call: the file has %d bytes, the entries whose Write returned nil make %d bytes - part of the refused entry is in the file:\n file     %x\n accepted %x", k, len(got), len(accepted), got, accepted)
+				}
+				rec.Class("file-after-an-all-or-nothing-sink-failure-is-the-accepted-entries", 1)
 			}
 			rec.Class("writer-fault", 1)
 		}
